@@ -256,10 +256,12 @@ static NeighSpec genNeighSpec(int ndim)
   n.radius = G::pick<double>({0.31, 0.57, 1.13, 5.}) * kL;
   return n;
 }
-static std::unique_ptr<ANeigh> buildNeigh(const NeighSpec& n)
+// The anisotropy coefficients are always given: without them the distance checker of the library is 2-D whatever the
+// space (finding of C06, agents/C06/nocoeff-1d-overflow.case), which is not the subject here.
+static std::unique_ptr<ANeigh> buildNeigh(const NeighSpec& n, int ndim)
 {
   if (!n.moving) return std::unique_ptr<ANeigh>(NeighUnique::create());
-  return std::unique_ptr<ANeigh>(NeighMoving::create(false, n.nmaxi, n.radius, n.nmini, n.nsect, n.nmaxi));
+  return std::unique_ptr<ANeigh>(NeighMoving::create(false, n.nmaxi, n.radius, n.nmini, n.nsect, n.nmaxi, VectorDouble((size_t)ndim, 1.)));
 }
 
 struct VarioSpec
@@ -426,7 +428,7 @@ enum CallKind
   K_FAILCOV = K_NOBS, // a: variant; b: 0 all-NA Db, 1 nbgh made of undefined samples, 2 variable rank out of range; d: model
   K_FAILKRIG,   // a: 0 no Z locator, 1 all-NA, 2 duplicated samples (singular), 3 model of another dimension, 4 model without structure
   K_FAILMISC,   // a: 0 variogram without variable, 1 migrate unknown name, 2 statistics of unknown names, 3 simtub without model, 4 xvalid all-NA
-  K_LAW,        // a: 0 uniform draws, 1 gaussian draws, 2 reseed, 3 new-style generator used and switched back; b: count
+  K_LAW,        // a: 0 uniform draws (generator as it is), 1 reseed + gaussian draws, 2 reseed, 3 new-style generator used and switched back; b: count
   K_GLOBAL,     // a: switch; nested successful call described by (b,c,d,e,seed,i1)
   K_CREATE,     // a: what is created and destroyed
   K_CONST,      // a: family of logically-const calls on the shared objects
@@ -571,7 +573,7 @@ static void buildWorld(const HistCase& c, World& w)
     w.mBadDim = buildModel(bad);
     w.mEmpty.reset(Model::createFromEnvironment(c.nvar, c.ndim));
   }
-  w.ng = buildNeigh(c.ng);
+  w.ng = buildNeigh(c.ng, c.ndim);
   w.vp = buildVarioParam(c.vp, c.ndim);
 }
 // public state of everything an observed call can take as argument
@@ -693,7 +695,7 @@ static void runGlobal(World& w, const Call& c)
       defineDefaultSpace(ESpaceType::RN, (unsigned)(w.ndim == 3 ? 2 : w.ndim + 1));
       {
         std::unique_ptr<Model> m(Model::createFromParam(ECov::SPHERICAL, 10., 2.));
-        std::unique_ptr<NeighMoving> nm(NeighMoving::create(false, 5, 10.));
+        std::unique_ptr<NeighMoving> nm(NeighMoving::create(false, 5, 10., 1, 1, 5, VectorDouble((size_t)getDefaultSpaceDimension(), 1.)));
         (void)m->toString();
       }
       defineDefaultSpace(ESpaceType::RN, (unsigned)w.ndim);
@@ -810,7 +812,10 @@ static void runCall(World& w, const Call& c, Out& o, bool noise)
       o.iv.push_back(db ? db->getSampleNumber() : -1);
       if (db)
         for (int d = 0; d < w.ndim; d++)
-          for (double x : db->getCoordinates(d, false).getVector()) o.dv.push_back(x);
+        {
+          VectorDouble xs = db->getCoordinates(d, false);
+          for (double x : xs.getVector()) o.dv.push_back(x);
+        }
       break;
     }
     case K_SELECT:
@@ -897,7 +902,10 @@ static void runCall(World& w, const Call& c, Out& o, bool noise)
       switch (c.a & 3)
       {
         case 0: for (int k = 0; k < n; k++) (void)law_uniform(0., 1.); break;
-        case 1: for (int k = 0; k < n; k++) (void)law_gaussian(); break;
+        case 1:
+          law_set_random_seed(c.seed);
+          for (int k = 0; k < n; k++) (void)law_gaussian();
+          break;
         case 2: law_set_random_seed(c.seed); break;
         default:
           law_set_old_style(false);
